@@ -14,6 +14,21 @@ try:
     r = sh(f"git -C /repo worktree add -q --detach {wt} HEAD")
     assert r.returncode == 0, r.stderr
     shutil.copy("/repo/gemclus/tree/_utils.cpython-312-x86_64-linux-gnu.so", f"{wt}/gemclus/tree/")
+    PYX = "_utils.pyx" in open(f"{d}/patch.diff").read()
+    def standin():
+        """the compiled split finder cannot be rebuilt here (no Cython): defects in the .pyx are demonstrated on the
+        line-preserving pure-Python transliteration of the .pyx (gcverif/pyxdesugar.py), which replaces the extension"""
+        if not PYX:
+            return
+        import glob
+        sys.path.insert(0, "/verif")
+        from gcverif import pyxdesugar
+        out = pyxdesugar.desugar(open(f"{wt}/gemclus/tree/_utils.pyx").read())[0].replace("np.import_array()", "pass")
+        open(f"{wt}/gemclus/tree/_utils.py", "w").write(out)
+        for so in glob.glob(f"{wt}/gemclus/tree/_utils*.so"):
+            os.remove(so)
+    res["pyx_standin"] = PYX
+    standin()
     env = dict(os.environ, PYTHONPATH=wt, OMP_NUM_THREADS="1", OPENBLAS_NUM_THREADS="1", MKL_NUM_THREADS="1")
     shutil.copy(f"{d}/demo.py", f"{wt}/_demo.py")
     r = sh(f"cd {wt} && timeout 600 /venv/bin/python -W ignore _demo.py", env=env)
@@ -22,6 +37,7 @@ try:
     r = sh(f"git -C {wt} apply {d}/patch.diff")
     res["apply_rc"] = r.returncode
     res["apply_err"] = r.stderr[-300:]
+    standin()
     r = sh(f"cd {wt} && timeout 600 /venv/bin/python -W ignore _demo.py", env=env)
     res["demo_patched_rc"] = r.returncode
     res["demo_patched_tail"] = (r.stdout + r.stderr)[-400:]
